@@ -146,14 +146,20 @@ def h_fault(req, cut, rst, ctrl_step, nfaulty, bystander):
 def _run(W, req, cut, rst, ctrl_step, nfaulty, bystander):
     s = W.sim
     by = None
-    if req in (3, 4):
-        # these requests refer to a context that exists
+    if req in (3, 4, 5):
+        # these requests refer to (or sit next to) a context that exists
         RemoteContext(7, host=wsim.SERVER_ADDR, target=T.add, args=[1, 2])
+    ctx_by = None
     if bystander:
         by = PersistentRemoteWorker(T.add, args=[10, 20], host=wsim.SERVER_ADDR)
         by.enqueue(1)
         if by.next_result() != 21:
             return "c11.bystander-broken-before-fault"
+        if req == 4:
+            # another client's worker living in the same context as the faulty request
+            ctx_by = PersistentRemoteWorker(None, host=wsim.SERVER_ADDR, context=7)
+            if ctx_by.call(5, 6) != 11:
+                return "c11.bystander-broken-before-fault"
     for _ in range(nfaulty):
         a = faulty_client(W, req, cut, rst, ctrl_step)
         s.block(lambda: a.state in ("done", "zombie"), 60, what="faulty-client-done")
@@ -183,6 +189,27 @@ def _run(W, req, cut, rst, ctrl_step, nfaulty, bystander):
             return "c11.bystander-disturbed(%s)" % type(e).__name__
         if not by.wait(timeout=10) or by.has_error is not False:
             return "c11.bystander-did-not-end-normally"
+    if ctx_by is not None:
+        try:
+            if ctx_by.call(7, 8) != 15:
+                return "c11.bystander-in-the-same-context-wrong-result"
+        except Hang:
+            raise
+        except Exception as e:  # noqa
+            return "c11.bystander-in-the-same-context-disturbed(%s)" % type(e).__name__
+    if req in (3, 4, 5) or ctx_by is not None:
+        # the context itself must still serve new clients (req 3 deleted it: then a new one can be registered)
+        try:
+            if req == 3 and False:
+                pass
+            fresh = PersistentRemoteWorker(None, host=wsim.SERVER_ADDR, context=7) if req in (4, 5) else None
+            if fresh is not None and fresh.call(1, 1) != 2:
+                return "c11.context-serves-wrong-result-after-fault"
+        except Hang:
+            raise
+        except Exception as e:  # noqa
+            if req == 4:
+                return "c11.context-refuses-new-workers-after-fault(%s)" % type(e).__name__
     if W.server_actor.state in ("done", "zombie"):
         return "c11.server-terminated-later"
     return None
@@ -198,8 +225,10 @@ _FUNCS = ["pyworkers.remote_server:RemoteServer.run", "pyworkers.remote:RemoteWo
 H_FAULT = Harness(
     "fault", "vf.props.c11:h_fault", _params,
     tiers={
-        "quick": {"ranges": {"req": (0, 1), "cut": (0, 1200)}, "fixed": {"nfaulty": 0, "bystander": 1},
-                  "extra_pre": ["cut <= 60 or cut % 16 == 0"], "partition": ["req", "rst"], "timeout": 300, "twin_fixed": {"req": 0, "rst": 0}},
+        "quick": {"ranges": {"cut": (0, 1200)}, "fixed": {"nfaulty": 0, "bystander": 1},
+                  "extra_pre": ["(req <= 1 and (cut <= 60 or cut % 16 == 0)) or (req >= 2 and (cut <= 24 or cut % 64 == 0))"],
+                  "partition": ["req", "rst", "ctrl_step"], "filter": (lambda f: f["req"] in (0, 1, 4) or f["ctrl_step"] == 0),
+                  "timeout": 300, "twin_fixed": {"req": 0, "rst": 0, "ctrl_step": 0}},
         "thorough": {"partition": ["req", "rst", "nfaulty", "bystander"], "timeout": 2400, "twin_fixed": {"req": 0, "rst": 0, "nfaulty": 0, "bystander": 1}},
     },
     functions=_FUNCS,
